@@ -19,6 +19,7 @@ RULE = ("random Dominion exports serialised to real JSON files and read by the r
         "repeated across cards and blocks; include_groups / pool_groups as list, tuple or set; "
         "non-trivial = at least one record returned that holds at least one stored mark; distinct = distinct canonical case")
 EXHAUSTIVE = {"quick": False, "thorough": False}
+RULE += "; option stream (n/8 more cases, own generator, OPTIONS_AUDIT.md): the four reader options by keyword, and left out of the call where they hold their documented defaults"
 
 _TMP = None
 _CNT = itertools.count()
